@@ -75,6 +75,19 @@ class Check(AddCheck):
         yield from gens.merge_cases_story(n_max=n_max, max_src=2, layouts=['plain', 'between'])
         yield from gens.merge_cases_item(n_max=n_max, max_src=2, para_layouts=['none', 'between'])
         yield from gens.merge_cases_other()
+        # malformed but parseable messages: each message of a representative set with any one element removed, against a
+        # running order in which its references resolve (a raise at any point must leave the running order as it was)
+        from checks.base import drop_variants
+        ro = to_text(gens.make_ro(['A', 'B', 'C'], layout='between', timing='all'))
+        seen = set()
+        for cls, doc, meta in list(gens.story_level_messages(['A', 'B'], max_src=2, full_refs=False)) + \
+                list(gens.item_level_messages(['B'], gens.ITEM_IDS[:2], max_src=2)):
+            key = (cls, len(doc[3]))
+            if key in seen:
+                continue
+            seen.add(key)
+            for v in drop_variants(to_text(doc)):
+                yield {'ro': ro, 'msg': v, 'meta': dict(meta, cls=cls, n=3, layout='dropped-element')}
         yield from gens.merge_cases_padded()
         yield from gens.merge_cases_bad_timing_payload()
         n_hist = 100 if tier == 'quick' else 1000
